@@ -13,6 +13,17 @@ const NUMS: [u64; 4] = [0, 1, 7, 1 << 40];
 const ARGS: [S; 4] = ["", "int", "a.B,int[]", "\u{e9}"];
 const TERMS4: [&[u8]; 4] = [b"", b"\n", b"\r\n", b"\n\n"];
 
+/// lines that follow the line under test inside a file: they contain every delimiter the grammar uses
+/// (':', '(', ')', ' -> ', '"', '}', '#'), so a scan that runs past the end of its line finds something to hold on to
+const FOLLOW: &[u8] = b"    7:8:ret.T w.X.late(a.B,int):9:10 -> y\n# {\"id\":\"sourceFile\",\"fileName\":\"L.kt\"}\n# key: value\nw.Late -> l:\n";
+const FOLLOW_ITEMS: usize = 4;
+fn follow_intact(items: &[Result<ProguardRecord<'_>, proguard::ParseError<'_>>]) -> bool {
+    matches!(
+        items,
+        [Ok(ProguardRecord::Method { ty: "ret.T", original: "late", obfuscated: "y", arguments: "a.B,int", original_class: Some("w.X"), line_mapping: Some(_) }), Ok(ProguardRecord::Header { key: "sourceFile", value: Some("L.kt") }), Ok(ProguardRecord::Header { key: "key", value: Some("value") }), Ok(ProguardRecord::Class { original: "w.Late", obfuscated: "l" })]
+    )
+}
+
 /// compare a parsed record with the AST line it was printed from
 fn matches(rec: &ProguardRecord<'_>, line: &Line) -> Result<(), String> {
     match (*line, rec) {
@@ -98,16 +109,20 @@ fn check_line(line: &Line, acc: &mut Acc) {
         buf.extend_from_slice(term);
         buf.extend_from_slice(b"    int after -> z");
         buf.extend_from_slice(term);
+        buf.extend_from_slice(FOLLOW);
         acc.transitions += 1;
         acc.observations += 1;
         let r = guarded(|| {
             let items: Vec<_> = ProguardMapping::new(&buf).iter().collect();
-            if items.len() != 3 {
-                return Err(format!("{} items instead of 3", items.len()));
+            if items.len() != 3 + FOLLOW_ITEMS {
+                return Err(format!("{} items instead of {}", items.len(), 3 + FOLLOW_ITEMS));
             }
             match &items[1] {
                 Ok(r) => matches(r, line)?,
                 Err(e) => return Err(format!("error item {:?}", esc(e.line()))),
+            }
+            if !follow_intact(&items[3..]) {
+                return Err(format!("the lines after it were disturbed: {:?}", &items[3..]));
             }
             match (&items[0], &items[2]) {
                 (Ok(ProguardRecord::Class { original: "p.Q", obfuscated: "q" }), Ok(ProguardRecord::Field { ty: "int", original: "after", obfuscated: "z" })) => Ok(()),
@@ -238,12 +253,16 @@ fn check_malformed(line: &Line, acc: &mut Acc) {
         buf.extend_from_slice(b"p.Q -> q:\n");
         buf.extend_from_slice(&bad);
         buf.extend_from_slice(b"\n    int after -> z\n");
+        buf.extend_from_slice(FOLLOW);
         acc.transitions += 1;
         acc.observations += 1;
         let r = guarded(|| {
             let items: Vec<_> = ProguardMapping::new(&buf).iter().collect();
-            if items.len() != 3 {
-                return Err(format!("{} items instead of 3: {:?}", items.len(), items));
+            if items.len() != 3 + FOLLOW_ITEMS {
+                return Err(format!("{} items instead of {}: {:?}", items.len(), 3 + FOLLOW_ITEMS, items));
+            }
+            if !follow_intact(&items[3..]) {
+                return Err(format!("the lines after the malformed one were disturbed: {:?}", &items[3..]));
             }
             match &items[1] {
                 Ok(r) => Err(format!("parsed as a record: {:?}", r)),
